@@ -10,7 +10,7 @@ sys.path.insert(0, os.path.dirname(os.path.abspath(__file__)))
 import code_mutants as cm  # noqa: E402
 V = os.path.dirname(os.path.dirname(os.path.abspath(__file__)))
 ORDER = {"assemblyline.c": ["C15", "C13", "C14", "C07", "C12", "C08", "C19", "C17", "C06", "C18", "C20"],
-         "parser.c": ["C06", "C13", "C07", "C14", "C08", "C15", "C16", "C10", "C19", "C17", "C09"],
+         "parser.c": ["C13", "C06", "C07", "C14", "C08", "C15", "C19", "C17"],
          "asmline.c": ["C20"]}
 
 
@@ -63,10 +63,14 @@ def main():
                     return chk, r.returncode
                 except subprocess.TimeoutExpired:
                     return chk, 3  # the mutant makes the workload hang case after case: noticed (every hang is a violation), just slowly
-            with ThreadPoolExecutor(max_workers=4) as ex:
-                for chk, rc in ex.map(one, ORDER[f]):
-                    if rc != 0 and not hit:
-                        hit = (chk, "violation" if rc == 1 else ("timeout" if rc == 3 else "harness-error"))
+            order = ORDER[f]
+            for g in range(0, len(order), 4):
+                with ThreadPoolExecutor(max_workers=4) as ex:
+                    for chk, rc in ex.map(one, order[g:g + 4]):
+                        if rc != 0 and not hit:
+                            hit = (chk, "violation" if rc == 1 else ("timeout" if rc == 3 else "harness-error"))
+                if hit:
+                    break
             if hit:
                 st["noticed"] += 1
                 report["by_check"][hit[0]] = report["by_check"].get(hit[0], 0) + 1
